@@ -540,6 +540,9 @@ func (ch c15) Run(c *core.Ctx) {
 	if c.Batch%4 == 3 && c.Begin(70000001) {
 		ch.listenersGroup(c)
 	}
+	if c.Batch%4 == 0 && c.Begin(70000002) {
+		ch.authGroup(c)
+	}
 	ngroups, reps := 640, 3
 	if c.Tier == "thorough" {
 		ngroups, reps = 20000, 5
@@ -771,6 +774,95 @@ func (ch c15) Run(c *core.Ctx) {
 				if strings.Join(res[i].Trace, "|") != strings.Join(solo[i].Trace, "|") {
 					c.Violate("trace-differs", "callback trace differs from solo run", fmt.Sprintf("group %d session %d", g, i), cs)
 				}
+			}
+		}
+	}
+}
+
+// authGroup: clients with the right password log in and run a query while, before and between their
+// messages, other clients of the same server fail to log in, again and again, some at the same time.
+// What the first get - replies and callbacks - is what they get alone.
+func (ch c15) authGroup(c *core.Ctx) {
+	prog := &hs.Prog{Stmts: []*hs.Stmt{{ID: "t", Cols: textCols(1), Ops: []hs.Op{{K: "row", Vals: []any{"v"}}, {K: "complete", Tag: "SELECT 1"}}}}}
+	validator := func(ctx context.Context, database, username, password string) (context.Context, bool, error) {
+		hs.ConnOf(ctx).CB("validate", username)
+		return ctx, password == "right-"+username, nil
+	}
+	mk := func() *hs.Sess { return &hs.Sess{Default: func(string) *hs.Prog { return prog }} }
+	type obs struct{ reply, trace string }
+	finish := func(cl *hs.Client) obs {
+		var tr []string
+		for _, e := range cl.C.Events() {
+			if e.Kind == "cb" {
+				tr = append(tr, e.Name)
+			}
+		}
+		msgs, _, err := pg.ParseStream(cl.C.Out())
+		o := obs{normStartup(msgs), strings.Join(tr, ",")}
+		if err != nil {
+			o.reply += " +unparsable"
+		}
+		for _, m := range msgs {
+			if m.T == 'E' {
+				o.reply += " E(" + m.Err['S'] + " " + m.Err['C'] + ")"
+			}
+		}
+		cl.Finish()
+		return o
+	}
+	login := func(env *hs.Env, user string, between func()) obs {
+		cl := hs.NewClient(env.Dial(mk()))
+		cl.Step(pg.Startup([][2]string{{"user", user}}))
+		if between != nil {
+			between()
+		}
+		cl.Step(append(pg.Password("right-"+user), pg.Query("t")...))
+		o := finish(cl)
+		o.reply = strings.ReplaceAll(o.reply, "="+user, "=<user>")
+		return o
+	}
+	for round := 0; round < 4; round++ {
+		env := hs.Start(hs.Parse, wire.SessionAuthStrategy(wire.ClearTextPassword(validator)))
+		solo := login(env, "bob", nil)
+		if !strings.Contains(solo.reply, "Z") {
+			c.Violate("auth-group", "a client with the right password is not served when alone", fmt.Sprintf("%+v", solo), nil)
+			env.Stop()
+			return
+		}
+		fail := func(n int, parallel bool) {
+			var wg sync.WaitGroup
+			for i := 0; i < n; i++ {
+				one := func(i int) {
+					defer wg.Done()
+					cl := hs.NewClient(env.Dial(mk()))
+					cl.Step(pg.Startup([][2]string{{"user", fmt.Sprintf("mallory%d", i%3)}}))
+					cl.Step(pg.Password(fmt.Sprintf("guess-%d", i)))
+					cl.C.CloseWrite()
+					cl.C.WaitClosed()
+				}
+				wg.Add(1)
+				if parallel {
+					go one(i)
+				} else {
+					one(i)
+				}
+			}
+			wg.Wait()
+			c.Count("failed_logins_next_to_good_ones", int64(n))
+		}
+		n := 5 + 3*round
+		got := []obs{
+			login(env, "bob", func() { fail(n, round%2 == 1) }), // asked for the password before the others fail
+		}
+		got = append(got, login(env, "bob", nil), login(env, "carol", nil)) // connecting after they failed
+		fail(n, true)
+		got = append(got, login(env, "bob", nil))
+		env.Stop()
+		c.Eval(fmt.Sprintf("auth group %d", round), true)
+		for i, g := range got {
+			if g != solo {
+				c.Violate("auth-group", "a client with the right password is served differently after other clients failed to log in", fmt.Sprintf("round %d login %d (%d failed logins before it): %+v, alone: %+v", round, i, n, g, solo), nil)
+				return
 			}
 		}
 	}
